@@ -79,10 +79,41 @@
     exactly one call per valid step, of its kind, in order - nothing for a pod
     whose evictions were all undone ([C13_commit_log_spec]); and an Unevict that
     withdraws the only valid eviction of a pod is a rollback of that eviction
-    ([C13_unevict_restores]). *)
+    ([C13_unevict_restores]).
+
+    Section 5 is the metamorphic reading of "abandoned scenarios can neither
+    influence later decisions nor reach the cluster": ERASURE.  [erase fails S
+    prog] (Model/SessionErase.v) is [prog] without the commands its Rollbacks /
+    Discards undo and without the Checkpoint / Rollback / Discard commands
+    themselves (which commands a Rollback undoes is read off the run, as
+    Statement.Rollback does: a checkpoint is the length of the operation log).
+    For every session, every failure oracle and every well-formed open statement
+    [prog] - nested checkpoints, shared-GPU pods in the rolled back parts,
+    un-evictions, Discards - the session reached by [prog] and the session reached
+    by [erase prog] are related by the relation of [C13_rollback_restores_partial]
+    (which includes the accepted resources [p_qc] and the device memory of every
+    pod that holds resources), have the SAME operation log - every recorded entry,
+    in particular the clones of the allocate entries with the node, GPU groups and
+    accepted resources Commit hands to Cache.Bind ([commit_payload]) - and the same
+    call counter; and Commit emits the same calls after both, whatever fails
+    ([C13_erasure_partial], [C13_erasure_open]).  The full statement (whole
+    programs with several statements, final sessions related) is refuted
+    ([C13_erasure_refuted]): once the eviction of a shared pod is committed the
+    pod is no longer virtual, and the GPU groups a rolled back nomination left in
+    it (the second exception above) are then outside what the relation masks;
+    what is missing for programs of several statements is the same development
+    over a relation that masks the GPU groups / accepted resources of Releasing
+    shared pods whatever their virtual flag.  Two model variants show what the
+    theorem excludes: NodeInfo.setAcceptedResources memoised (seeded change C13-2)
+    hands Cache.Bind the portion of the abandoned node
+    ([C13_erasure_violated_by_memoised_accepted_resource]); Commit as it was
+    before 5a5de9a, un-evicting a refused eviction with what the pod object
+    carried at commit time, put the pod back under the GPU groups of an abandoned
+    nomination ([C13_erasure_refused_eviction_before_repair]; found by the erasure
+    clause of the monitor on the real Statement, repaired). *)
 From Coq Require Import List ZArith PArith Bool.
 From KaiV Require Import Model.Res Model.Status Model.AMap Model.Node Model.NodeSpec Model.Session Model.SessionSpec
-  Proofs.Node Proofs.Session Proofs.SessionLog.
+  Model.SessionErase Proofs.Node Proofs.Session Proofs.SessionLog Proofs.SessionErase.
 Import ListNotations.
 
 (** ** 1. Rollback to a checkpoint *)
@@ -445,3 +476,112 @@ Theorem C13_hetero_nonvacuous :
        /\ option_map gpu (alookup 2%positive (p_qtab p)) = Some 250%Z.
 Proof. exact hetero_nonvacuous. Qed.
 Print Assumptions C13_hetero_nonvacuous.
+
+(** ** 5. Erasure: the program without its abandoned parts *)
+
+(** the full statement: for whole programs (several statements), the calls of every Commit are those
+    of the erased program and the final sessions are related *)
+Definition C13_erasure : Prop :=
+  forall (fails : nat -> bool) (S : sess) (P : list cmd),
+    s_log S = [] -> s_stuck S = false -> wf_prog fails S P = true ->
+    commit_calls fails S P = commit_calls fails S (erase fails S P)
+    /\ srel neq (Session.run fails S P) (Session.run fails S (erase fails S P)).
+
+Theorem C13_erasure_refuted : ~ C13_erasure.
+Proof. exact erasure_refuted. Qed.
+Print Assumptions C13_erasure_refuted.
+
+(** one statement, every session keyed by pod id, every failure oracle, every well-formed open statement
+    [prog] followed by Commit: related sessions before the Commit ([C13_restored_meaning] spells the
+    relation out; a pod that holds resources is the same record on both sides, accepted resources
+    included), the same operation log, the same clones handed to Cache.Bind (pod, node, GPU groups, accepted
+    resources as the queue is charged, memory per device), the same calls from Commit; and the erased
+    program of [prog ++ [Commit]] is the erased [prog] followed by Commit *)
+Theorem C13_erasure_partial : forall (fails : nat -> bool) (S : sess) (prog : list cmd),
+  keyed_b S = true -> s_log S = [] -> s_stuck S = false -> forallb open_cmd prog = true ->
+  wf_from any_task fails [] false S (prog ++ [Commit]) = true ->
+  srel neq (Session.run fails S prog) (Session.run fails S (erase fails S prog))
+  /\ s_log (Session.run fails S prog) = s_log (Session.run fails S (erase fails S prog))
+  /\ commit_payload (s_log (Session.run fails S prog)) = commit_payload (s_log (Session.run fails S (erase fails S prog)))
+  /\ snd (step fails (Session.run fails S prog) Commit) = snd (step fails (Session.run fails S (erase fails S prog)) Commit)
+  /\ erase fails S (prog ++ [Commit]) = erase fails S prog ++ [Commit].
+Proof. exact erasure_partial. Qed.
+Print Assumptions C13_erasure_partial.
+
+(** the same without the assumption on the pod map and whatever command [c] follows (the statement may stay
+    open): related sessions, same operation log, same call counter - what any later decision reads *)
+Theorem C13_erasure_open : forall (fails : nat -> bool) (S : sess) (prog : list cmd) (c : cmd),
+  s_log S = [] -> s_stuck S = false -> forallb open_cmd prog = true ->
+  wf_from any_task fails [] false S (prog ++ [c]) = true ->
+  srel neq (Session.run fails S prog) (Session.run fails S (erase fails S prog))
+  /\ s_log (Session.run fails S prog) = s_log (Session.run fails S (erase fails S prog))
+  /\ s_ncalls (Session.run fails S prog) = s_ncalls (Session.run fails S (erase fails S prog)).
+Proof. exact erase_open. Qed.
+Print Assumptions C13_erasure_open.
+
+(** used for the calls of Commit: in a well-formed open statement every pod with a placing entry in the
+    operation log is nominated or allocated in the session (so its record is the same after the erased
+    program) *)
+Theorem C13_placed_pods_are_placed : forall (fails : nat -> bool) (S : sess) (prog : list cmd) (c : cmd),
+  s_log S = [] -> s_stuck S = false -> forallb open_cmd prog = true ->
+  wf_from any_task fails [] false S (prog ++ [c]) = true ->
+  forall pid, has_placing (s_log (Session.run fails S prog)) pid = true ->
+    exists a, get_pod (Session.run fails S prog) pid = Some a /\ (p_status a = Pipelined \/ p_status a = Allocated).
+Proof. exact placed_pods_are_placed. Qed.
+Print Assumptions C13_placed_pods_are_placed.
+
+(** non-vacuity on a heterogeneous-memory placement (corpus E1, the scenario of seeded/C13-2): nodes 1 / 2
+    with one GPU of 8000 / 16000 MiB, pod 4 Pending asking for 4000 MiB.  [Checkpoint; Allocate 4 on node 1;
+    Rollback; Allocate 4 on node 2] ++ [Commit] meets the hypotheses of [C13_erasure_partial]; the abandoned
+    step charged the queue half a GPU; the erased program is [Allocate 4 on node 2]; Commit binds pod 4 on
+    node 2; the clone handed to Cache.Bind carries a quarter of a GPU after the program and after the erased
+    program, and the queue ends charged a quarter *)
+Theorem C13_erasure_hetero_nonvacuous :
+  keyed_b w12_init = true /\ s_log w12_init = [] /\ s_stuck w12_init = false /\ forallb open_cmd w12_open = true
+  /\ wf_from any_task nofail [] false w12_init (w12_open ++ [Commit]) = true
+  /\ erase nofail w12_init w12_open = [Allocate 4 2 (Some [9%positive])]
+  /\ erase nofail w12_init w12_prog = [Allocate 4 2 (Some [9%positive]); Commit]
+  /\ queue_gpu (Session.run nofail w12_init (firstn 2 w12_open)) 7 = Some 500%Z
+  /\ snd (step nofail (Session.run nofail w12_init w12_open) Commit) = [ABind 4 2 [9%positive]]
+  /\ payload_gpu (Session.run nofail w12_init w12_open) = [250%Z]
+  /\ payload_gpu (Session.run nofail w12_init (erase nofail w12_init w12_open)) = [250%Z]
+  /\ queue_gpu (Session.run nofail w12_init w12_prog) 7 = Some 250%Z
+  /\ queue_gpu (Session.run nofail w12_init (erase nofail w12_init w12_prog)) 7 = Some 250%Z.
+Proof. exact erasure_hetero_nonvacuous. Qed.
+Print Assumptions C13_erasure_hetero_nonvacuous.
+
+(** the model variant with MEMOISED accepted resources ([run_memoised]: NodeInfo.setAcceptedResources returns
+    early once the pod's accepted resources are resolved - the seeded change C13-2 -, for Statement.Allocate)
+    violates erasure on the same program: Cache.Bind is handed half a GPU (the portion of the abandoned
+    node) and the queue is charged half a GPU, the erased program gives a quarter; the model as it is gives
+    a quarter on both *)
+Theorem C13_erasure_violated_by_memoised_accepted_resource :
+  let S := clear_qc w12_init 4 in
+  payload_gpu (run_memoised nofail S w12_open) = [500%Z]
+  /\ payload_gpu (run_memoised nofail S (erase nofail S w12_open)) = [250%Z]
+  /\ queue_gpu (run_memoised nofail S w12_prog) 7 = Some 500%Z
+  /\ queue_gpu (run_memoised nofail S (erase nofail S w12_prog)) 7 = Some 250%Z
+  /\ payload_gpu (Session.run nofail S w12_open) = [250%Z]
+  /\ queue_gpu (Session.run nofail S w12_prog) 7 = Some 250%Z.
+Proof. exact erasure_violated_by_memoised_accepted_resource. Qed.
+Print Assumptions C13_erasure_violated_by_memoised_accepted_resource.
+
+(** Commit as it was before 5a5de9a ([run_before_5a5de9a]) violated erasure when Cache.Evict refused the
+    eviction of a shared pod whose nomination elsewhere had been rolled back (corpus W8): the pod was put
+    back on node 1 under the GPU group of the abandoned nomination (9), the erased program puts it back
+    under its own group (8); with Commit as it is both end with the same node 1, pods, jobs and queues *)
+Theorem C13_erasure_refused_eviction_before_repair :
+  wf_prog fail_first w8_init w8_prog = true
+  /\ erase fail_first w8_init w8_prog = [Evict 4; Commit]
+  /\ (let s := run_before_5a5de9a fail_first w8_init w8_prog in
+      zget 9 (g_used (node1 s)) = 50%Z /\ zget 8 (g_used (node1 s)) = 0%Z /\ g_mark (node1 s) = [(9%positive, tt)]
+      /\ option_map (fun p => (p_status p, p_groups p)) (get_pod s 4) = Some (Releasing, [9%positive]))
+  /\ (let s := run_before_5a5de9a fail_first w8_init (erase fail_first w8_init w8_prog) in
+      zget 9 (g_used (node1 s)) = 0%Z /\ zget 8 (g_used (node1 s)) = 50%Z /\ g_mark (node1 s) = [(8%positive, tt)]
+      /\ option_map (fun p => (p_status p, p_groups p)) (get_pod s 4) = Some (Releasing, [8%positive]))
+  /\ (let a := project (Session.run fail_first w8_init w8_prog) in
+      let b := project (Session.run fail_first w8_init (erase fail_first w8_init w8_prog)) in
+      alookup 1%positive (d_nodes a) = alookup 1%positive (d_nodes b) /\ d_pods a = d_pods b /\ d_jobs a = d_jobs b /\ d_queues a = d_queues b)
+  /\ option_map (fun p => (p_status p, p_groups p)) (get_pod (Session.run fail_first w8_init w8_prog) 4) = Some (Running, [8%positive]).
+Proof. exact erasure_refused_eviction_before_repair. Qed.
+Print Assumptions C13_erasure_refused_eviction_before_repair.
